@@ -331,6 +331,9 @@ def replay(job, cex):
                     'syntax_notext': '>>> x = (', 'other_error': '>>> y = 1  # xdoctest: +REQUIRES(module:os))', 'malformed_google': '>>> x = ('}
             src = ''
             for i, k in enumerate(cex['kinds']):
+                if k == 'no_example':
+                    src += 'def f%d():\n    """\n    just prose %d\n    """\n\n' % (i, i)      # as in the harness: no example block at all
+                    continue
                 src += 'def f%d():\n    """\n    Example:\n        %s\n    """\n\n' % (i, body[k])
             path = os.path.join(d, 'm_c14_replay.py')
             with open(path, 'w') as f:
